@@ -64,15 +64,30 @@ theorem look_snoc_nil (R : List Row) (a b : Nat) : look (R ++ [[]]) a b = look R
       simp [lookupRow]
     · exact look_of_ge _ a b (by simp; omega)
 
-theorem Good.addNode {s : State} {R : List Row} (g : Good s R) (w : Int) :
-    ∃ s', CsrM.addNode s w = some (s', mkIx s.modulus R.length) ∧ Good s' (R ++ [[]]) ∧ SameParams s' s ∧
+theorem fitsIx_iff (m i : Nat) : fitsIx m i = true ↔ (m = 0 ∨ i < m) := by
+  simp [fitsIx]
+
+/-- an index that fits the index type is not changed by `Ix::new` -/
+theorem mkIx_of_fits {m i : Nat} (h : m = 0 ∨ i < m) : mkIx m i = i := by
+  unfold mkIx
+  rcases h with h | h
+  · simp [h]
+  · have : ¬ m = 0 := by omega
+    simp [this, Nat.mod_eq_of_lt h]
+
+/-- `add_node` below the capacity of the index type: the new node gets the fresh index `node_count`
+(`Ix::new` does not wrap it) -/
+theorem Good.addNode {s : State} {R : List Row} (g : Good s R) (w : Int)
+    (hfit : s.modulus = 0 ∨ R.length < s.modulus) :
+    ∃ s', CsrM.addNode s w = some (s', R.length) ∧ Good s' (R ++ [[]]) ∧ SameParams s' s ∧
       s'.nodeWeights = s.nodeWeights ++ [w] ∧ s'.edgeCountQ = s.edgeCountQ := by
   have hrl : s.row.length = R.length + 1 := by rw [g.rep.row, offsets_length]
   unfold CsrM.addNode
   have h0 : ¬ s.row.length = 0 := by omega
   have hi : s.row.length - 1 = R.length := by omega
   have h1 : R.length ≤ s.nodeWeights.length := by rw [g.rep.nw]; omega
-  simp only [h0, if_false, hi, h1, if_true]
+  have h2 : fitsIx s.modulus R.length = true := (fitsIx_iff _ _).mpr hfit
+  simp only [h0, if_false, hi, h1, if_true, h2, Bool.not_true, Bool.false_eq_true, mkIx_of_fits hfit]
   refine ⟨_, rfl, ⟨⟨?_, ?_, ?_, ?_⟩, ?_, ?_, ?_⟩, ⟨rfl, rfl, rfl, rfl⟩, ?_, ?_⟩
   · simpa using g.rep.col
   · simpa using g.rep.wts
@@ -94,6 +109,17 @@ theorem Good.addNode {s : State} {R : List Row} (g : Good s R) (w : Int) :
   · show s.nodeWeights.insertIdx R.length w = _
     rw [← g.rep.nw, insertIdx_length_self]
   · rfl
+
+/-- `add_node` at the capacity of the index type: the `assert!` fires (documented panic) -/
+theorem Good.addNode_full {s : State} {R : List Row} (g : Good s R) (w : Int)
+    (hfull : ¬ (s.modulus = 0 ∨ R.length < s.modulus)) : CsrM.addNode s w = none := by
+  have hrl : s.row.length = R.length + 1 := by rw [g.rep.row, offsets_length]
+  unfold CsrM.addNode
+  have h0 : ¬ s.row.length = 0 := by omega
+  have hi : s.row.length - 1 = R.length := by omega
+  have h2 : fitsIx s.modulus R.length = false := by
+    rw [← Bool.not_eq_true, fitsIx_iff]; exact hfull
+  simp [h0, hi, h2]
 
 theorem Good.clearEdges {s : State} {R : List Row} (g : Good s R) :
     Good (CsrM.clearEdges s) (List.replicate R.length []) := by
